@@ -12,6 +12,7 @@ import (
 	"math/big"
 	"os"
 	"path/filepath"
+	"strconv"
 	"strings"
 	"time"
 
@@ -107,12 +108,13 @@ func taggedValue(d *json.Decoder) (M, bool) {
 }
 
 type result struct {
-	Code  int        `json:"code"`
-	Out   string     `json:"out"`
-	Eq    bool       `json:"eq"`
-	Again bool       `json:"again"`
-	Note  string     `json:"note"`
-	Built []builtRes `json:"built"`
+	Code   int        `json:"code"`
+	Out    string     `json:"out"`
+	Eq     bool       `json:"eq"`
+	Again  bool       `json:"again"`
+	Direct int        `json:"direct"`
+	Note   string     `json:"note"`
+	Built  []builtRes `json:"built"`
 }
 
 // builtRes mirrors the driver's record of one value built by a type-directed change.
@@ -131,7 +133,7 @@ type builtRes struct {
 // value when the domain of spec/SchemaValid.tla can hold it, [t |-> "opaque"] when it is
 // JSON outside that domain (then only well-formedness, re-acceptance and equality are
 // judged), [t |-> "malformed"] when it is not JSON.
-func classify(text []byte) M {
+func classify(text []byte, openFloatText bool) M {
 	if !json.Valid(text) {
 		return M{"t": "malformed"}
 	}
@@ -139,7 +141,47 @@ func classify(text []byte) M {
 	if !ok || !inDomain(v) {
 		return M{"t": "opaque"}
 	}
+	// a number written as text (`type: string, format: float64`) exists in the domain only as
+	// the listed symbols: the text of any other number cannot be judged against the format
+	if openFloatText && holdsUnlistedNumberText(text) {
+		return M{"t": "opaque"}
+	}
 	return v
+}
+
+func holdsUnlistedNumberText(text []byte) bool {
+	var v any
+	d := json.NewDecoder(strings.NewReader(string(text)))
+	d.UseNumber()
+	if d.Decode(&v) != nil {
+		return false
+	}
+	listed := map[string]bool{}
+	for _, t := range c03.Symbols {
+		listed[t] = true
+	}
+	var walk func(x any) bool
+	walk = func(x any) bool {
+		switch y := x.(type) {
+		case string:
+			_, err := strconv.ParseFloat(y, 64)
+			return err == nil && !listed[y]
+		case []any:
+			for _, z := range y {
+				if walk(z) {
+					return true
+				}
+			}
+		case map[string]any:
+			for _, z := range y {
+				if walk(z) {
+					return true
+				}
+			}
+		}
+		return false
+	}
+	return walk(v)
 }
 
 func inDomain(v M) bool { return true } // any character is a one-character symbol; numbers are checked by tagged
@@ -229,7 +271,7 @@ func Check(r *core.Run) error {
 	}
 	var lines [][]byte
 	var idx []int
-	nEcho, nSkipType := 0, 0
+	nEcho, nSkipType, nDirect := 0, 0, 0
 	none := M{"t": "none"}
 	for i := range schemas {
 		if got[i] == nil {
@@ -239,8 +281,12 @@ func Check(r *core.Run) error {
 		outs := make([]any, len(bodies))
 		eqs := make([]bool, len(bodies))
 		agains := make([]bool, len(bodies))
+		directs := make([]int, len(bodies))
 		for k, g := range got[i] {
-			codes[k], eqs[k], agains[k], outs[k] = g.Code, g.Eq, g.Again, none
+			codes[k], eqs[k], agains[k], outs[k], directs[k] = g.Code, g.Eq, g.Again, none, g.Direct
+			if g.Code == 1 && g.Direct != 1 {
+				nDirect++
+			}
 			switch g.Code {
 			case 1:
 				nEcho++
@@ -254,7 +300,7 @@ func Check(r *core.Run) error {
 				nSkipType++
 			}
 		}
-		b, _ := json.Marshal(M{"schema": schemas[i], "got": codes, "out": outs, "eq": eqs, "again": agains})
+		b, _ := json.Marshal(M{"schema": schemas[i], "got": codes, "out": outs, "eq": eqs, "again": agains, "direct": directs})
 		lines = append(lines, b)
 		idx = append(idx, i)
 		if i%9 == 0 {
@@ -265,6 +311,7 @@ func Check(r *core.Run) error {
 	}
 	r.Cov("echoes_judged", nEcho)
 	r.Cov("pairs_without_common_go_type", nSkipType)
+	r.Cov("echoes_decoded_again_from_a_buffer_overwritten_afterwards", nDirect)
 	r.AddEvals(int64(len(lines) * len(bodies)))
 	vs, err := obs.Check(r, lines, obs.CheckOpts{Module: "RoundTripCheck", Cfg: obs.StdCfg("KnownDeviations = " + r.KnownSet()), ChunkSize: 8, Parallel: 10, Env: map[string]string{"VERIF_AUX": aux}})
 	if err != nil {
@@ -312,7 +359,8 @@ func Check(r *core.Run) error {
 				nBuiltValid++
 				out := M{"t": "none"}
 				if b.Code == 1 {
-					out = classify([]byte(b.Out))
+					sj, _ := json.Marshal(c03.RenderSchema(schemas[i], "S"))
+					out = classify([]byte(b.Out), strings.Contains(string(sj), `"format":"float64"`))
 				}
 				es, sa := shapeFlags(c03.RenderSchema(schemas[i], "S"))
 				line, _ := json.Marshal(M{"k": "built", "schema": schemas[i], "what": b.What, "code": b.Code, "out": out, "dec": b.Dec, "eq": b.Eq, "emptyStruct": es, "sharedArray": sa})
